@@ -137,7 +137,11 @@ class Emitter:
             if k in ('NamespaceDecl',):
                 sc = scope + [n.get('name', '(anon)')]
             elif k in ('CXXRecordDecl', 'ClassTemplateSpecializationDecl') and n.get('name'):
-                qn = '::'.join(scope + [n['name']])
+                nm = n['name']
+                if k == 'ClassTemplateSpecializationDecl':
+                    targs = [c.get('type', {}).get('qualType') for c in n.get('inner', []) if c.get('kind') == 'TemplateArgument']
+                    if targs and all(targs): nm = '%s<%s>' % (nm, ', '.join(targs))
+                qn = '::'.join(scope + [nm])
                 if n.get('completeDefinition') or any(c.get('kind') in ('FieldDecl', 'CXXMethodDecl') for c in n.get('inner', [])):
                     self.records.setdefault(qn, n)
                 self.qname[n['id']] = qn
@@ -154,10 +158,20 @@ class Emitter:
                 self.qname[n['id']] = '::'.join(scope + [n.get('name', '?')])
             for c in n.get('inner', []):
                 rec(c, n, sc)
+        self._index_done = False
         for o in self.objs:
             # top-level dumps are ccl::-filtered: their scope is 'ccl' plus whatever lexical parent;
             # clang's filter prints the decl alone, so recover the scope from mangledName-free info:
             rec(o, None, self.scope_of_top(o))
+        self.fix_out_of_line_names()
+
+    def fix_out_of_line_names(self):
+        """out-of-class member definitions: qualify by the semantic parent (the class), not the namespace"""
+        for i, d in self.byid.items():
+            if d.get('kind') in ('CXXMethodDecl', 'CXXConstructorDecl', 'CXXConversionDecl', 'CXXDestructorDecl', 'VarDecl') and d.get('parentDeclContextId') in self.qname:
+                par = self.byid.get(d['parentDeclContextId'])
+                if par is not None and par.get('kind') in ('CXXRecordDecl', 'ClassTemplateSpecializationDecl'):
+                    self.qname[i] = self.qname[d['parentDeclContextId']] + '::' + d.get('name', '?')
 
     def scope_of_top(self, o):
         # qualified scope of a filtered top-level decl is not in the JSON; units give a map when
